@@ -1,0 +1,106 @@
+//go:build verif
+
+// Contracts for package directory (service directory), checked by /verif/govc.
+// This file contains comments only and is compiled only with the build tag "verif".
+
+package directory
+
+// Ghost event counters of the signal helper (definitions): number of service-added / service-removed
+// events emitted, and the id / name carried by the last one.
+//@ ghostfield evadded int
+//@ ghostfield evremoved int
+//@ ghostfield evlastid int
+//@ interface (h ServiceDirectorySignalHelper) SignalServiceAdded(serviceID uint32, name string) (err error)
+//@   trusted
+//@   modifies h.evadded, h.evlastid
+//@   ensures h.evadded == old(h.evadded) + 1 && h.evlastid == serviceID
+//@ interface (h ServiceDirectorySignalHelper) SignalServiceRemoved(serviceID uint32, name string) (err error)
+//@   trusted
+//@   modifies h.evremoved, h.evlastid
+//@   ensures h.evremoved == old(h.evremoved) + 1 && h.evlastid == serviceID
+
+// Registry state: staging (registered, not yet ready), services (ready), lastID (last id handed out).
+//@ guarded_by (s *serviceDirectory) s.mutex: s.staging, s.services, s.lastID, s.staging[*], s.services[*]
+//@   monitor s.staging != nil && s.services != nil && s.staging != s.services
+//@   monitor forall k uint32 {has(s.staging, k)} :: has(s.staging, k) ==> !has(s.services, k) && 1 <= k && k <= s.lastID && s.staging[k].ServiceId == k
+//@   monitor forall k uint32 {has(s.services, k)} :: has(s.services, k) ==> !has(s.staging, k) && 1 <= k && k <= s.lastID && s.services[k].ServiceId == k
+//@   monitor_assume s.lastID < 4294967295
+
+//@ func checkServiceInfo(i ServiceInfo) (err error)
+//@   tags C15
+//@   ensures err == nil ==> i.Name != ""
+//@   loop 1:
+//@     invariant true
+
+//@ func (s *serviceDirectory) RegisterService(newInfo ServiceInfo) (result uint32, err error)
+//@   tags C15
+//@   requires !s.mutex.lockw
+//@   modifies everything
+//@   ensures !s.mutex.lockw
+//@   ensures[C15] err == nil ==> result == at_lock(s.lastID) + 1 && at_unlock(s.lastID) == result && !at_lock(has(s.staging, result)) && !at_lock(has(s.services, result))
+//@   ensures[C15] err == nil ==> at_unlock(has(s.staging, result)) && at_unlock(s.staging[result]).Name == newInfo.Name && at_unlock(s.staging[result]).ServiceId == result
+//@   ensures[C15] err == nil ==> forall k uint32 {at_unlock(has(s.staging, k))} :: k != result ==> (at_unlock(has(s.staging, k)) <==> at_lock(has(s.staging, k)))
+//@   ensures[C15] err == nil ==> forall k uint32 {at_lock(has(s.staging, k))} :: at_lock(has(s.staging, k)) ==> at_lock(s.staging[k]).Name != newInfo.Name
+//@   ensures[C15] err == nil ==> forall k uint32 {at_lock(has(s.services, k))} :: at_lock(has(s.services, k)) ==> at_lock(s.services[k]).Name != newInfo.Name
+//@   ensures[C15] forall k uint32 {at_unlock(has(s.services, k))} :: at_unlock(has(s.services, k)) <==> at_lock(has(s.services, k))
+//@   ensures[C15] err != nil ==> at_unlock(s.lastID) == at_lock(s.lastID) || old(s.mutex.lockw)
+//@   loop 1:
+//@     invariant s.mutex.lockw && s.staging == at_lock(s.staging) && s.services == at_lock(s.services) && s.lastID == at_lock(s.lastID)
+//@     invariant forall k uint32 {visited#1(k)} :: visited#1(k) ==> has(s.staging, k) && s.staging[k].Name != newInfo.Name
+//@   loop 2:
+//@     invariant s.mutex.lockw && s.staging == at_lock(s.staging) && s.services == at_lock(s.services) && s.lastID == at_lock(s.lastID)
+//@     invariant forall k uint32 {has(s.staging, k)} :: has(s.staging, k) ==> s.staging[k].Name != newInfo.Name
+//@     invariant forall k uint32 {visited#2(k)} :: visited#2(k) ==> has(s.services, k) && s.services[k].Name != newInfo.Name
+
+//@ func (s *serviceDirectory) ServiceReady(id uint32) (err error)
+//@   tags C15
+//@   requires !s.mutex.lockw
+//@   modifies everything
+//@   ensures !s.mutex.lockw
+//@   ensures[C15] err == nil ==> at_lock(has(s.staging, id)) && !at_unlock(has(s.staging, id)) && at_unlock(has(s.services, id)) && at_unlock(s.services[id]).Name == at_lock(s.staging[id]).Name
+//@   ensures[C15] err == nil && s.signal != nil ==> s.signal.evadded == old(s.signal.evadded) + 1 && s.signal.evlastid == id
+//@   ensures[C15] err != nil ==> !at_lock(has(s.staging, id)) && s.signal.evadded == old(s.signal.evadded)
+//@   ensures[C15] forall k uint32 {at_unlock(has(s.services, k))} :: k != id || err != nil ==> (at_unlock(has(s.services, k)) <==> at_lock(has(s.services, k))) && (at_unlock(has(s.staging, k)) <==> at_lock(has(s.staging, k)))
+//@   ensures[C15] at_unlock(s.lastID) == at_lock(s.lastID)
+
+//@ func (s *serviceDirectory) UnregisterService(id uint32) (err error)
+//@   tags C15
+//@   requires !s.mutex.lockw
+//@   modifies everything
+//@   ensures !s.mutex.lockw
+//@   ensures[C15] err == nil ==> (at_lock(has(s.services, id)) || at_lock(has(s.staging, id))) && !at_unlock(has(s.services, id)) && !at_unlock(has(s.staging, id))
+//@   ensures[C15] err == nil && at_lock(has(s.services, id)) && s.signal != nil ==> s.signal.evremoved == old(s.signal.evremoved) + 1 && s.signal.evlastid == id
+//@   ensures[C15] !at_lock(has(s.services, id)) ==> s.signal.evremoved == old(s.signal.evremoved)
+//@   ensures[C15] err != nil ==> !at_lock(has(s.services, id)) && !at_lock(has(s.staging, id))
+//@   ensures[C15] forall k uint32 {at_unlock(has(s.services, k))} :: k != id ==> (at_unlock(has(s.services, k)) <==> at_lock(has(s.services, k))) && (at_unlock(has(s.staging, k)) <==> at_lock(has(s.staging, k)))
+//@   ensures[C15] at_unlock(s.lastID) == at_lock(s.lastID)
+
+//@ func (s *serviceDirectory) UpdateServiceInfo(i ServiceInfo) (err error)
+//@   tags C15
+//@   requires !s.mutex.lockw
+//@   modifies everything
+//@   ensures !s.mutex.lockw
+//@   ensures[C15] err == nil ==> at_lock(has(s.services, i.ServiceId)) && at_lock(s.services[i.ServiceId]).Name == i.Name && at_unlock(s.services[i.ServiceId]).Name == i.Name && at_unlock(s.services[i.ServiceId]).ServiceId == i.ServiceId
+//@   ensures[C15] forall k uint32 {at_unlock(has(s.services, k))} :: (at_unlock(has(s.services, k)) <==> at_lock(has(s.services, k))) && (at_unlock(has(s.staging, k)) <==> at_lock(has(s.staging, k)))
+//@   ensures[C15] at_unlock(s.lastID) == at_lock(s.lastID)
+
+//@ func (s *serviceDirectory) info(serviceID uint32) (result ServiceInfo, err error)
+//@   tags C15
+//@   requires !s.mutex.lockw
+//@   modifies everything
+//@   ensures !s.mutex.lockw
+//@   ensures[C15] err == nil <==> at_lock(has(s.services, serviceID))
+//@   ensures[C15] err == nil ==> result.Name == at_lock(s.services[serviceID]).Name && result.ServiceId == serviceID
+//@   ensures[C15] forall k uint32 {at_unlock(has(s.services, k))} :: (at_unlock(has(s.services, k)) <==> at_lock(has(s.services, k))) && (at_unlock(has(s.staging, k)) <==> at_lock(has(s.staging, k)))
+
+//@ func (s *serviceDirectory) Service(service string) (info ServiceInfo, err error)
+//@   tags C15
+//@   requires !s.mutex.lockw
+//@   modifies everything
+//@   ensures !s.mutex.lockw
+//@   ensures[C15] err == nil ==> info.Name == service && at_lock(has(s.services, info.ServiceId))
+//@   ensures[C15] err != nil ==> forall k uint32 {at_lock(has(s.services, k))} :: at_lock(has(s.services, k)) ==> at_lock(s.services[k]).Name != service
+//@   ensures[C15] forall k uint32 {at_unlock(has(s.services, k))} :: (at_unlock(has(s.services, k)) <==> at_lock(has(s.services, k))) && (at_unlock(has(s.staging, k)) <==> at_lock(has(s.staging, k)))
+//@   loop 1:
+//@     invariant s.mutex.lockw && s.services == at_lock(s.services) && s.staging == at_lock(s.staging)
+//@     invariant forall k uint32 {visited#1(k)} :: visited#1(k) ==> has(s.services, k) && s.services[k].Name != service
